@@ -33,7 +33,7 @@ pub fn meta(m: &mut PropMeta) {
 }
 
 pub fn families(_tier: &str) -> Vec<Box<dyn Family>> {
-    vec![Box::new(Product), Box::new(GeneratorFailure), Box::new(DuplicateArgument)]
+    vec![Box::new(Product), Box::new(GeneratorFailure), Box::new(DuplicateArgument), Box::new(Arrangements::new())]
 }
 
 #[derive(Clone, Copy, Debug, PartialEq)]
@@ -51,6 +51,9 @@ enum Class {
     Redefinition,
     Rule,
     RulePlusWarningElsewhere,
+    /// one struct with 256 / 257 fields of an unresolved type: that many error diagnostics (only in `arrangements`)
+    Many256,
+    Many257,
 }
 
 const CLASSES: [Class; 13] = [
@@ -85,6 +88,8 @@ impl Class {
             Class::Redefinition => "redefinition",
             Class::Rule => "rule-violation",
             Class::RulePlusWarningElsewhere => "rule-violation+warning-elsewhere",
+            Class::Many256 => "256-errors",
+            Class::Many257 => "257-errors",
         }
     }
     fn has_error(self) -> bool {
@@ -120,6 +125,11 @@ fn offending(class: Class, k: usize) -> Option<Node> {
         Class::Cycle => text(format!("module M{k}\nstruct A{k} {{ a: A{k} }}\n")),
         Class::Redefinition => text(format!("module M{k}\nstruct A{k} {{ a: int32 }}\nstruct A{k} {{ b: int32 }}\n")),
         Class::Rule | Class::RulePlusWarningElsewhere => text(format!("module M{k}\nstruct A{k} {{ a: int32 }}\ncompact struct C{k} {{ }}\n")),
+        Class::Many256 | Class::Many257 => {
+            let n = if class == Class::Many256 { 256 } else { 257 };
+            let fields: String = (0..n).map(|i| format!("  a{i}: Nope{i}\n")).collect();
+            text(format!("module M{k}\nstruct A{k} {{\n{fields}}}\n"))
+        }
     }
 }
 
@@ -161,6 +171,12 @@ struct Case {
     failing: Option<(usize, GenFault)>,
     /// a clean file is listed a second time under another spelling (a DuplicateFile warning, nothing else changes)
     dup: bool,
+    /// 0 = the directory named by -O exists (if -O is given); 1 = '-O out' and 'out' does not exist; 2 = '-O out/nested',
+    /// neither exists (only with runs in which nothing may be generated)
+    out_missing: u8,
+    /// where the file at position `pos` is listed: 0 = as a source; 1 = '-R f<pos>.slice'; 2 = inside the reference
+    /// directory given as '-R refs'
+    refplace: u8,
 }
 
 const RADICES: [u64; 7] = [4, 2, 13, 3, 3, 2, 2];
@@ -177,6 +193,8 @@ fn case_of(idx: u64) -> Case {
         json: d[6] == 1,
         failing: None,
         dup: false,
+        out_missing: 0,
+        refplace: 0,
     }
 }
 
@@ -197,6 +215,8 @@ fn case_of_gf(idx: u64) -> Case {
         dry: d[5] == 1,
         outdir: idx % 2 == 0,
         dup: false,
+        out_missing: 0,
+        refplace: 0,
     }
 }
 
@@ -205,14 +225,14 @@ const RADICES_DUP: [u64; 6] = [2, 2, 13, 3, 3, 2];
 /// family `duplicate-argument`: as `product`, with a clean file listed twice (sources, or once as reference)
 fn case_of_dup(idx: u64) -> Case {
     let d = decode_index(idx, &RADICES_DUP);
-    Case { ngens: 1 + d[0] as usize, dry: d[1] == 1, class: CLASSES[d[2] as usize], pos: d[3] as usize, allow: ALLOW[d[4] as usize], outdir: false, json: d[5] == 1, failing: None, dup: true }
+    Case { ngens: 1 + d[0] as usize, dry: d[1] == 1, class: CLASSES[d[2] as usize], pos: d[3] as usize, allow: ALLOW[d[4] as usize], outdir: false, json: d[5] == 1, failing: None, dup: true, out_missing: 0, refplace: 0 }
 }
 
 fn scenario(c: &Case) -> Scenario {
     let mut tree = vec![];
     let mut argv = vec![];
     for k in 0..3 {
-        let path = format!("f{k}.slice");
+        let path = if k == c.pos && c.refplace == 2 { format!("refs/f{k}.slice") } else { format!("f{k}.slice") };
         if k == c.pos {
             if let Some(n) = offending(c.class, k) {
                 tree.push((path.clone(), n));
@@ -222,7 +242,22 @@ fn scenario(c: &Case) -> Scenario {
         } else {
             tree.push((path.clone(), Node::File(clean_file(k).into_bytes())));
         }
+        if k == c.pos && c.refplace > 0 {
+            continue; // listed as a reference below
+        }
         argv.push(path);
+    }
+    match c.refplace {
+        1 => {
+            argv.push("-R".to_string());
+            argv.push(format!("f{}.slice", c.pos));
+        }
+        2 => {
+            tree.push(("refs".to_string(), Node::Dir));
+            argv.push("-R".to_string());
+            argv.push("refs".to_string());
+        }
+        _ => {}
     }
     if c.dup {
         // the clean file after the offending one, once more under another spelling
@@ -249,15 +284,86 @@ fn scenario(c: &Case) -> Scenario {
         argv.push(a.to_string());
     }
     if c.outdir {
-        tree.push(("out".to_string(), Node::Dir));
+        if c.out_missing == 0 {
+            tree.push(("out".to_string(), Node::Dir));
+        }
         argv.push("-O".to_string());
-        argv.push("out".to_string());
+        argv.push(if c.out_missing == 2 { "out/nested" } else { "out" }.to_string());
     }
     if c.json {
         argv.push("--diagnostic-format".to_string());
         argv.push("json".to_string());
     }
     Scenario { tree, gens, argv, env: vec![] }
+}
+
+
+/// Arrangements the product does not have: an output directory that does not exist yet (nothing may be created when
+/// nothing is generated), the offending file listed as a reference (file or directory), and programs with 256 / 257
+/// errors (an exit status computed from the count).
+struct Arrangements {
+    cases: Vec<(Class, usize, usize, bool, bool, u8, u8)>, // class, pos, ngens, dry, json, out_missing, refplace
+}
+impl Arrangements {
+    fn new() -> Self {
+        let mut cases = vec![];
+        for &class in CLASSES.iter() {
+            for pos in 0..3 {
+                for dry in [false, true] {
+                    // A: missing output directory; only runs in which nothing may be generated
+                    if class.has_error() || dry {
+                        for om in [1u8, 2] {
+                            cases.push((class, pos, 2, dry, pos == 1, om, 0));
+                        }
+                    }
+                    // B: the file at `pos` is a reference
+                    for rp in [1u8, 2] {
+                        if rp == 2 && matches!(class, Class::Missing | Class::Directory) {
+                            continue; // not an error there: nothing to find / a sub-directory
+                        }
+                        if rp == 1 && class == Class::Directory {
+                            continue; // a directory is a legal reference
+                        }
+                        for ngens in [1usize, 2] {
+                            cases.push((class, pos, ngens, dry, ngens == 2, 0, rp));
+                        }
+                    }
+                }
+            }
+        }
+        for class in [Class::Many256, Class::Many257] {
+            for json in [false, true] {
+                for ngens in [0usize, 2] {
+                    for dry in [false, true] {
+                        cases.push((class, 1, ngens, dry, json, 0, 0));
+                        cases.push((class, 1, ngens, dry, json, 0, 1));
+                    }
+                }
+            }
+        }
+        Arrangements { cases }
+    }
+    fn case(&self, idx: u64) -> Case {
+        let (class, pos, ngens, dry, json, out_missing, refplace) = self.cases[idx as usize];
+        Case { class, pos, ngens, dry, allow: None, outdir: out_missing > 0, json, failing: None, dup: false, out_missing, refplace }
+    }
+}
+impl Family for Arrangements {
+    fn name(&self) -> String {
+        "arrangements/13 program classes x position x --dry-run with an output directory that does not exist ('-O out', '-O out/nested'; only runs that may generate nothing); the offending file listed as '-R file' and inside '-R directory'; programs with 256 and 257 errors".into()
+    }
+    fn len(&self) -> u64 {
+        self.cases.len() as u64
+    }
+    fn hang_secs(&self) -> f64 {
+        60.0
+    }
+    fn describe(&self, idx: u64) -> Value {
+        describe_case(&self.case(idx))
+    }
+    fn run(&self, idx: u64) -> CaseOut {
+        judge("arrangements", &self.case(idx))
+    }
 }
 
 struct Product;
